@@ -246,6 +246,53 @@ func Run(j *job.Job, s *job.Sink) {
 				s.Count("histories_with_a_late_newer_revision", 1)
 			}
 		}
+		// One history in five offers a text that holds several top-level statements. When a
+		// later statement is rejected, goyang keeps the modules that came before it in the
+		// same text (the caveat documented on Modules.Parse). Whatever it keeps must be
+		// whole: the set then has to behave as if exactly the kept statements had been
+		// offered, typedefs and all. The first module defines typedefs at the top and in a
+		// container, the optional second one derives from them across an import.
+		if r.Intn(5) == 0 {
+			ma := "module zzma {\n  namespace \"urn:zzma\";\n  prefix za;\n  typedef t1 { type int8 { range \"1..5\"; } }\n  container c {\n    typedef t2 { type t1; }\n    leaf l { type t2; }\n  }\n  grouping g { typedef t4 { type string { length \"2\"; } } leaf gl { type t4; } }\n  uses g;\n  leaf top { type t1; }\n}\n"
+			mb := "module zzmb {\n  namespace \"urn:zzmb\";\n  prefix zb;\n  import zzma { prefix za; }\n  typedef t3 { type za:t1; }\n  leaf x { type za:t1; }\n  leaf y { type t3; }\n  uses za:g;\n}\n"
+			var tail string
+			switch r.Intn(5) {
+			case 0:
+				tail = "module zzmc {\n  namespace \"urn:zzmc\";\n  prefix zc;\n  typedef t9 { type string; }\n  frobnicate y;\n}\n"
+			case 1:
+				tail = "container notamodule {\n  leaf q { type string; }\n}\n"
+			case 2:
+				tail = "module zzma {\n  namespace \"urn:zzma2\";\n  prefix za2;\n  typedef t1 { type string; }\n}\n"
+			case 3:
+				tail = "module zzmc {\n  namespace \"urn:zzmc\";\n  prefix zc;\n  container k { typedef t8 { type int8; } leaf z { type t8; } bogus-statement 1; }\n}\n"
+			default:
+				tail = "" // the whole text is acceptable
+			}
+			parts := []string{ma}
+			if r.Intn(2) == 0 {
+				parts = append(parts, mb)
+			}
+			if tail != "" && r.Intn(6) == 0 {
+				// the rejected statement comes first: nothing of the text may stay
+				parts = append([]string{tail}, parts...)
+				if strings.HasPrefix(tail, "module zzma") {
+					parts = parts[:1] // (a duplicate needs the original before it; keep it simple)
+					parts[0] = "module zzmc { namespace \"urn:zzmc\"; prefix zc; frobnicate y; }\n"
+				}
+			} else if tail != "" {
+				parts = append(parts, tail)
+			}
+			mo := op{Kind: "multi", Name: "zzmulti.yang", Text: strings.Join(parts, "")}
+			if tail == "" {
+				mo.Kind = "load"
+			}
+			at := r.Intn(len(ops) + 1)
+			ops = append(ops[:at], append([]op{mo}, ops[at:]...)...)
+			if r.Intn(2) == 0 {
+				ops = append(ops, op{Kind: "process"})
+			}
+			s.Count("histories_with_a_multi_module_text", 1)
+		}
 		ops = append(ops, op{Kind: "process"}, op{Kind: "read"}, op{Kind: "process"})
 		s.Current(c, ops)
 		s.Count("histories", 1)
@@ -254,7 +301,7 @@ func Run(j *job.Job, s *job.Sink) {
 			switch o.Kind {
 			case "process":
 				nproc++
-			case "bad":
+			case "bad", "multi":
 				nbad++
 			}
 		}
@@ -281,6 +328,7 @@ func Run(j *job.Job, s *job.Sink) {
 			}()
 			ms := yang.NewModules()
 			var good []op
+			var keptPrefix []string
 			failedLoads := 0
 			processedBefore := false
 			lastClean := false
@@ -292,6 +340,34 @@ func Run(j *job.Job, s *job.Sink) {
 						return
 					}
 					failedLoads++
+				case "multi":
+					if err := ms.Parse(o.Text, o.Name); err == nil {
+						bad("generator", "bad text accepted: "+o.Name, nil)
+						return
+					}
+					failedLoads++
+					// Which of the statements before the rejected one did the set keep? Either
+					// none (the load left no trace) or all of them, in which case the reference
+					// loads exactly those, under the same source name and at the same lines.
+					var kept []string
+					for _, n := range []string{"zzma", "zzmb", "zzmc"} {
+						if ms.Modules[n] != nil {
+							kept = append(kept, n)
+						}
+					}
+					if len(kept) > 0 {
+						cut := strings.LastIndex(o.Text, "\nmodule ")
+						if k := strings.LastIndex(o.Text, "\ncontainer notamodule"); k > cut {
+							cut = k
+						}
+						if cut < 0 || strings.HasPrefix(o.Text, "module zzmc") || strings.HasPrefix(o.Text, "container") {
+							bad("failed-load-left-a-trace", fmt.Sprintf("the first statement of %s was rejected, yet the set holds %v", o.Name, kept), nil)
+							return
+						}
+						good = append(good, op{"load", o.Name, o.Text[:cut+1]})
+						keptPrefix = append(keptPrefix, kept...)
+						lastClean = false
+					}
 				case "load":
 					if err := ms.Parse(o.Text, o.Name); err != nil {
 						bad("good-text-rejected", err.Error(), nil)
@@ -361,6 +437,11 @@ func Run(j *job.Job, s *job.Sink) {
 					continue
 				}
 				processedBefore = false
+			}
+			// Recorded finding c18-failed-multi-module-text-keeps-earlier-modules: the
+			// history was otherwise consistent with "the kept statements were offered".
+			if len(keptPrefix) > 0 {
+				bad("failed-multi-module-text-keeps-earlier-modules", fmt.Sprintf("the load of zzmulti.yang failed, the set keeps %v", keptPrefix), map[string]any{"kept_modules_behave_as_if_loaded_alone": true})
 			}
 		}()
 		if c%1500 == 0 && !reported {
